@@ -108,6 +108,8 @@ def run(ctx):
     chk.rule('A4T', 'after a non-terminating writer a terminating store reaches every later use as a string', floor=8)
     chk.rule('A4R', 'every data source leaves its result buffer NUL-terminated on every return path', floor=30)
     chk.rule('A4O', 'no signed arithmetic on integers converted from input text without a dominating range check', floor=1)
+    chk.rule('H1', 'every loop changes, on every way round, something one of its exit conditions depends on '
+                   '(necessary for termination; not a termination proof)', floor=20)
     chk.rule('A5', 'results that may be NULL / buffers only valid on success are tested before use', floor=60)
     chk.rule('D1', 'derived facts the bounds rely on: the clamp of the length parser and the range of the two limits; '
                    'the INI line cap covers the fixed filter-name buffer', floor=4)
@@ -120,7 +122,7 @@ def run(ctx):
     chk.assumptions = ['invalid pointers and memory exhaustion are outside the domain',
                        'libc writers respect their size argument; snprintf returns the untruncated length (>= 0)',
                        'a string passed in by the caller is NUL-terminated inside its object']
-    chk.not_decided = ['absence of hangs (loop termination)', 'uninitialised reads', 'UB kinds outside the rules',
+    chk.not_decided = ['termination proper (H1 decides only that no loop can spin without touching its exit condition)', 'uninitialised reads', 'UB kinds outside the rules',
                        'over-reads (only writes and NULL/invalid-buffer uses are obligations)']
     prog = ctx.program(facts.AS_CONFIGURED, 'lib')
     cg = ctx.callgraph(facts.AS_CONFIGURED, 'lib')
@@ -228,6 +230,31 @@ def run(ctx):
                        render(c)[:40], render(bad) if bad is not None else ''),
                    how='no signed +,-,* on the converted value before a dominating comparison, or the arithmetic is unsigned')
     chk.count('text_to_int_conversions', nconv)
+    # ---- H1: loops make progress ---------------------------------------------------------------------
+    from engine import cfg as Cfg
+    nloops = 0
+    for key, (f, _, _) in sorted(reach.items(), key=lambda kv: str(kv[0])):
+        live = Cfg.reachable_blocks(f)
+        loops = [c for c in Cfg._sccs(f, live) if len(c) > 1 or c[0] in f.blocks[c[0]].succs]
+        if not loops:
+            continue
+        stuck = Cfg.stuck_cycles(f)
+        stuck_heads = {min(c): (conds, w) for c, conds, w in stuck}
+        for i, comp in enumerate(sorted(loops, key=min)):
+            nloops += 1
+            hit = stuck_heads.get(min(comp))
+            at = f.body
+            for b in sorted(comp):
+                blk = f.blocks[b]
+                if blk.cond is not None:
+                    at = blk.cond
+                    break
+            chk.ob('H1', 'loop-progress[%s#%d]' % (f.name, i), hit is None, at.where(), f.name,
+                   'the loop can go round without changing anything its exit condition%s depends on (%s): once entered '
+                   'on that path it never ends and the exec never happens' % (
+                       's' if hit and len(hit[0]) != 1 else '', '; '.join(render(c)[:60] for c in hit[0]) if hit else ''),
+                   how='every cycle assigns a variable of an exit condition, or the condition itself advances state')
+    chk.count('loops_checked', nloops)
     # ---- A5 ---------------------------------------------------------------------------------------
     exc5 = load_exceptions('A5')
     na = NullAnalysis(prog, cg)
